@@ -1265,3 +1265,16 @@ package ast
 //@   ensures[C09] recordskept: recordsKept(cloneTable)
 //@   ensures allocmono: forall p Ref :: old(allocated(p)) ==> allocated(p)
 
+
+// ASSUMED (extern): the working memory is re-targeted through the clone table (five loops); only freshness is used here
+//@ extern func (workingMem *WorkingMemory) Clone(cloneTable) (c, err)
+//@   modifies @clonefx, fresh WorkingMemory.*, fresh map[string]*Expression, fresh map[string]*ExpressionAtom, fresh map[string]*Variable, fresh map[*Variable][]*Expression, fresh map[*Variable][]*ExpressionAtom
+//@   ensures err == nil ==> fresh(c) && !$blue[c]
+//@   ensures TableInv(cloneTable) && recordsKept(cloneTable) && (forall p Ref :: old(allocated(p)) ==> allocated(p))
+
+// ASSUMED (extern): KnowledgeBase.Clone ranges over the rule map (loop + allocation-relative frames are beyond what the
+// generator discharges robustly); stated for the record, not checked
+//@ extern func (e *KnowledgeBase) Clone(cloneTable) (c, err)
+//@   modifies @clonefx, fresh KnowledgeBase.*, fresh map[string]*RuleEntry
+//@   ensures err == nil ==> fresh(c) && !$blue[c] && c.Name == e.Name && c.Version == e.Version
+//@   ensures err == nil ==> (forall k string :: has(c.RuleEntries, k) == has(e.RuleEntries, k)) && (forall k string :: has(e.RuleEntries, k) ==> c.RuleEntries[k] == imageOf(cloneTable, e.RuleEntries[k].AstID))
